@@ -83,8 +83,18 @@ def mc_and_run(ctx, comp, family, depth, mode, compress, kd, totals):
     if d.get("programs") != n:
         raise lib.ToolError(f"driver executed {d.get('programs')} of {n} programs")
     count_ops(ctx, d)
-    _, dn = lib.count_distinct(progs)
-    return progs, trace, n, dn
+    return progs, trace, n, count_nontrivial(progs)
+
+
+def count_nontrivial(path):
+    """distinct programs that store at least one object (a program without a write only probes absent keys)"""
+    import hashlib
+    seen = set()
+    with open(path) as f:
+        for line in f:
+            if '"op":"write"' in line.replace(" ", ""):
+                seen.add(hashlib.md5(line.encode()).digest())
+    return len(seen)
 
 
 def count_ops(ctx, info):
@@ -224,7 +234,7 @@ def run(ctx):
     if d.get("programs") != nrand:
         raise lib.ToolError(f"driver executed {d.get('programs')} of {nrand} random programs")
     count_ops(ctx, d)
-    _, dn = lib.count_distinct(dump)
+    dn = count_nontrivial(dump)
     judge_trace(ctx, trace, f"random seed={ctx.seed}", kd, totals)
     total_programs += nrand
     distinct += dn
@@ -259,5 +269,5 @@ def run(ctx):
                         "histories longer than the depth bound and sizes above 512 KiB are covered by seeded random programs / one 64 MiB program only"]
     return lib.finish(ctx, "model_checking",
                       rule="programs = operation sequences enumerated by TLC from MC_Storage (history variable, all lengths 1..D, not ending "
-                           "in a read) plus seeded random programs (plus the 64 MiB program in thorough); distinct = distinct program texts "
-                           "(md5); every program ends with a read of every payload of its table, so every program observes the store")
+                           "in a read) plus seeded random programs (plus the 64 MiB program in thorough); distinct_nontrivial = distinct program "
+                           "texts (md5) that contain at least one write; every program ends with a read of every payload of its table")
